@@ -1474,12 +1474,36 @@ E('C12', 'counter-local', S2, "        self.set_output(self.output + 1)\n       
 V('C18', 'output-lags', S1, "                self.set_output(repeat)\n                self._repeated_event.send(self, **data, repeat=repeat)", "                self._repeated_event.send(self, **data, repeat=repeat)\n                self.set_output(repeat)", 'R18.1')
 V('C18', 'output-other-number', S1, "                self.set_output(repeat)\n                self._repeated_event.send(self, **data, repeat=repeat)", "                self.set_output(repeat - 1)\n                self._repeated_event.send(self, **data, repeat=repeat)", 'R18.1')
 V('C18', 'orig-source-after', S1, """        data['orig_source'] = data.get('source')
+        # the event may come from another Repeat block, this block does its own numbering
+        data.pop('repeat', None)
         self.set_output(0)
         self._repeated_event.send(self, **data, repeat=0)
-        self._queue.put_nowait(data)""", """        self.set_output(0)
+        self._queue.put_nowait(data)""", """        data.pop('repeat', None)
+        self.set_output(0)
         self._repeated_event.send(self, **data, repeat=0)
         data['orig_source'] = data.get('source')
         self._queue.put_nowait(data)""", 'R18.2')
+V('C18', 'repeat-key-kept-reverted', S1, "        data.pop('repeat', None)\n", "", 'R18.7',
+  note='reverts fix db7cab4: Repeat -> Repeat chain raises TypeError (multiple values for repeat)')
+V('C18', 'repeat-key-removed-after-send', S1, """        data.pop('repeat', None)
+        self.set_output(0)
+        self._repeated_event.send(self, **data, repeat=0)
+""", """        self.set_output(0)
+        self._repeated_event.send(self, **data, repeat=0)
+        data.pop('repeat', None)
+""", 'R18.7')
+V('C18', 'repeat-key-removed-conditionally', S1, "        data.pop('repeat', None)\n",
+  "        if self._count is not None:\n            data.pop('repeat', None)\n", 'R18.7')
+V('C18', 'repeat-key-copy-queued', S1, "        self._queue.put_nowait(data)\n",
+  "        self._queue.put_nowait({**data, 'repeat': 0})\n", 'R18.7')
+E('C18', 'repeat-key-del-guarded', S1, "        data.pop('repeat', None)\n",
+  "        if 'repeat' in data:\n            del data['repeat']\n")
+E('C18', 'repeat-key-pop-first', S1, """        data['orig_source'] = data.get('source')
+        # the event may come from another Repeat block, this block does its own numbering
+        data.pop('repeat', None)
+""", """        data.pop('repeat', None)
+        data['orig_source'] = data.get('source')
+""")
 V('C18', 'no-restart-numbering', S1, """                    data = await asyncio.wait_for(self._queue.get(), self._interval)
                     repeat = 0
 """, """                    data = await asyncio.wait_for(self._queue.get(), self._interval)
